@@ -103,4 +103,47 @@ theorem execOrder_spec (sc : Scope) (cands : List Rule)
       rintro ⟨r', ⟨_, hr', hal⟩, hs⟩
       exact h4 ⟨r', hr', hal, hs⟩
 
+/-! ### the execution loop -/
+
+theorem runRules_off (fails : Rule → Bool) (l : List Rule) : runRules false fails l = l := by
+  induction l with
+  | nil => rfl
+  | cons r rest ih => simp [runRules, ih]
+
+theorem runRules_noerr (ff : Bool) (fails : Rule → Bool) (l : List Rule) (h : ∀ r ∈ l, fails r = false) :
+    runRules ff fails l = l := by
+  induction l with
+  | nil => rfl
+  | cons r rest ih =>
+    simp [runRules, h r (List.mem_cons_self ..), ih (fun q hq => h q (List.mem_cons_of_mem _ hq))]
+
+theorem runRules_on (fails : Rule → Bool) (l : List Rule) :
+    runRules true fails l =
+      l.takeWhile (fun r => !fails r) ++ (l.dropWhile (fun r => !fails r)).take 1 := by
+  induction l with
+  | nil => rfl
+  | cons r rest ih =>
+    simp only [runRules, Bool.true_and, List.takeWhile_cons, List.dropWhile_cons]
+    cases hf : fails r <;> simp [ih]
+
+theorem runRules_prefix (ff : Bool) (fails : Rule → Bool) (l : List Rule) : runRules ff fails l <+: l := by
+  induction l with
+  | nil => exact List.prefix_refl _
+  | cons r rest ih =>
+    simp only [runRules]
+    split
+    · exact ⟨rest, rfl⟩
+    · exact (List.prefix_cons_inj r).mpr ih
+
+/-! ### the executable specification -/
+
+theorem mem_firesList (rx : Nat → Val → Bool) (rules : List Rule) (allowed : List Seg → Bool) (ev : Event) (n : String) :
+    n ∈ Spec.firesList rx rules allowed ev ↔ Spec.fires rx rules allowed ev n := by
+  simp only [Spec.firesList, Spec.fires, List.mem_filter, List.mem_map, List.mem_flatMap, decide_eq_true_eq]
+  constructor
+  · rintro ⟨⟨r, ⟨hr, ht⟩, rfl⟩, hno⟩
+    exact ⟨⟨r, hr, rfl, ht⟩, fun ⟨r', hr', ht', hs⟩ => hno ⟨r', ⟨hr', ht'⟩, hs⟩⟩
+  · rintro ⟨⟨r, hr, rfl, ht⟩, hno⟩
+    exact ⟨⟨r, ⟨hr, ht⟩, rfl⟩, fun ⟨r', ⟨hr', ht'⟩, hs⟩ => hno ⟨r', hr', ht', hs⟩⟩
+
 end Ecal.Engine
